@@ -71,6 +71,9 @@ pub struct TcpCfg {
     pub liveness: bool,
     /// C16 invariants (caps, MSS, window) checked on every state / packet
     pub check_caps: bool,
+    /// Sequential mode: after reading to EOF the server stays silent until an explicit
+    /// environment action (nothing of it acknowledges the client's FIN again by itself)
+    pub server_reply_late: bool,
 }
 
 impl TcpCfg {
@@ -96,6 +99,7 @@ impl TcpCfg {
             drops: 1,
             liveness: true,
             check_caps: true,
+            server_reply_late: false,
         }
     }
     pub fn total(&self) -> usize {
@@ -170,6 +174,8 @@ pub struct Shared {
     pub log: RefCell<Log>,
     pub rgate: Gate,
     pub wgate: Gate,
+    /// the server's reply (Sequential mode) waits for this gate when `server_reply_late`
+    pub sgate: Gate,
 }
 
 async fn write_pattern<W: AsyncWriteExt + Unpin>(
@@ -410,6 +416,7 @@ async fn server(sh: Rc<Shared>, cfg: TcpCfg, bind: SocketAddr) {
                 }
             })
             .await;
+            sh.sgate.pass().await;
             let _ = write_pattern(&mut s, &s_chunks, pat_s, &open, |r| {
                 let mut l = sh.log.borrow_mut();
                 match r {
@@ -492,6 +499,7 @@ pub struct TcpSys {
 
 pub const A_END: u16 = 0;
 pub const A_GO: u16 = 1;
+pub const A_GO_SERVER: u16 = 2;
 pub const A_DELIVER: u16 = 100;
 pub const A_DROP: u16 = 300;
 
@@ -756,6 +764,7 @@ impl System for TcpSys {
             log: RefCell::new(Log::default()),
             rgate: if cfg.reader == Pace::Eager { Gate::new_open() } else { Gate::default() },
             wgate: if cfg.writer == Pace::Eager { Gate::new_open() } else { Gate::default() },
+            sgate: if cfg.server_reply_late { Gate::default() } else { Gate::new_open() },
         });
         let mut exec = Executor::new();
         // server first so that the listener exists before the client's SYN can arrive
@@ -787,6 +796,9 @@ impl System for TcpSys {
         if self.wire.max_age() < self.cfg.d && self.wire.len() <= self.cfg.w {
             out.push(A_END);
         }
+        if self.cfg.server_reply_late && !self.sh.sgate.is_open() {
+            out.push(A_GO_SERVER);
+        }
         if self.cfg.reader == Pace::Late && !self.sh.rgate.is_open() {
             out.push(A_GO);
         }
@@ -805,6 +817,7 @@ impl System for TcpSys {
         match a {
             A_END => "end-round".into(),
             A_GO => "reader-go".into(),
+            A_GO_SERVER => "server-replies-now".into(),
             a if a >= A_DROP => {
                 let p = &self.wire.pkts[(a - A_DROP) as usize];
                 format!("DROP {} (age {})", p.key, p.age)
@@ -821,6 +834,10 @@ impl System for TcpSys {
             A_END => self.end_round(),
             A_GO => {
                 self.sh.rgate.open();
+                self.run_apps()
+            }
+            A_GO_SERVER => {
+                self.sh.sgate.open();
                 self.run_apps()
             }
             a if a >= A_DROP => {
@@ -843,6 +860,7 @@ impl System for TcpSys {
         d.add(&*self.sh.log.borrow());
         d.add(&self.drops_left);
         d.add(&self.sh.rgate.is_open());
+        d.add(&self.sh.sgate.is_open());
         d.add(&self.sh.rgate.tokens());
         d.add(&self.sh.wgate.tokens());
         // window monitor state (only when it is judged)
@@ -871,6 +889,7 @@ impl System for TcpSys {
         let pre = self.sh.log.borrow().clone();
         self.sh.rgate.open();
         self.sh.wgate.open();
+        self.sh.sgate.open();
         let mut v = self.run_apps().err();
         let mut idle = 0;
         let h = self.cfg.horizon();
